@@ -19,8 +19,10 @@ func init() {
 			ruleC12D2(r)
 			ruleC12D3(r)
 			ruleErrorsChecked(r, "D4", "/encoding/convert", 50)
+			r.borrow("C07", func() { ruleC07R2(r) }) // a frame for a full subscriber must not stall the read path
 			ruleNoSwallowedErrors(r, "D6", 10, true, "/encoding", "/encoding/json", "/encoding/protobuf", "/encoding/convert")
 			if pk := r.P.ByPath[modPath+"/encoding/convert"]; pk != nil {
+				ruleC11M12(r, pk)
 				ruleC11M2(r, pk) // registered as M2: decoder literals are complete and zero literals are acceptable to the decoder itself
 			}
 			le := newLockEngine(r.P)
